@@ -28,7 +28,7 @@ RULE = ("argv grammar over the five sub-commands and the global options with val
         "to file, dangling symlink, missing parent, file-as-parent; option order permutations, duplicated options, missing "
         "command, unknown options); each argv run in-process (audit hook + probes) and a sample as real subprocesses (directory "
         "diff, some under strace); distinct = distinct (monitor, case) digests"
-        " EXTENSIONS: + decoy sibling files (target.tmp, target~, .target.swp ...) that must survive, symlinks with relative targets named from another directory / chained / to the parent directory, accounts equal to meaningful numbers, values wrapping modulo 2^32, reversed straddling intervals, the request handed to PaperWallet.generate for intervals of K-1 .. 2K+1 rows per harvested K and of 2^31 rows (recorder; mismatch confirmed end to end in fast mode), export targets on another file system (EXDEV for rename / link) with decoys there")
+        " EXTENSIONS: + decoy sibling files (target.tmp, target~, .target.swp ...) that must survive, symlinks with relative targets named from another directory / chained / to the parent directory, accounts equal to meaningful numbers, values wrapping modulo 2^32, reversed straddling intervals, the request handed to PaperWallet.generate for intervals of K-1 .. 2K+1 rows per harvested K and of 2^31 rows (recorder; mismatch confirmed end to end in fast mode), export targets on another file system (EXDEV for rename / link) with decoys there, odd file names ('-', '~', leading blank) and '~/wallet.json' with HOME holding that file")
 LEVEL_TEXT = ("Outcome-based monitor on real CLI executions: a non-zero exit must come with no wallet data on stdout and no "
               "file created or modified (directory diff + audit 'open' events + strace on a sample); exit 0 must print/save JSON "
               "identical to what the library API returns for the same secret/network/account/interval (through an independent "
@@ -116,6 +116,18 @@ def prepare_dir(d, fcase):
         for pat in ("%s.tmp", "%s~", ".%s.tmp", "%s.part"):
             open(os.path.join(other, pat % "w.json"), "w").write("decoy\n")
         return os.path.join("otherfs", "w.json") if kind == "new-on-other-filesystem" else os.path.join(other, "w.json")
+    if kind == "odd-name-dash":
+        return "-"                  # (a file called '-'; an implementation may also read it as "standard output")
+    if kind == "odd-name-tilde":
+        return "~"
+    if kind == "odd-name-space":
+        return " w.json"
+    if kind == "tilde-existing":
+        # HOME (set for this run) holds wallet.json; '~/wallet.json' names - depending on whether the command line expands the
+        # tilde - either that existing file or a path below a directory '~' that does not exist: refused both ways
+        os.makedirs(os.path.join(d, "home"), exist_ok=True)
+        open(os.path.join(d, "home", "wallet.json"), "w").write("{\"precious\": \"in HOME\"}\n")
+        return "~/wallet.json"
     if kind == "existing":
         return "keep.txt"
     if kind == "existing-absolute":
@@ -312,10 +324,20 @@ def judge_run(ctx, case, mode):
         fval = prepare_dir(d, case["file"])
         argv = build_argv(case, fval)
         before = snap(d)
-        if mode == "inproc":
-            res = run_inproc(argv, d, captured)
-        else:
-            res = run_subproc(argv, d, strace=(mode == "strace"))
+        old_home = os.environ.get("HOME")
+        if case["file"]["kind"] == "tilde-existing":
+            os.environ["HOME"] = os.path.join(d, "home")
+        try:
+            if mode == "inproc":
+                res = run_inproc(argv, d, captured)
+            else:
+                res = run_subproc(argv, d, strace=(mode == "strace"))
+        finally:
+            if case["file"]["kind"] == "tilde-existing":
+                if old_home is None:
+                    os.environ.pop("HOME", None)
+                else:
+                    os.environ["HOME"] = old_home
         after = snap(d)
         ctx.reach(mode if mode != "strace" else "subprocess")
         if mode == "strace":
@@ -387,7 +409,9 @@ def judge_run(ctx, case, mode):
         if fval not in (None, ""):
             tgt = os.path.join(d, fval)
             text = open(tgt).read() if os.path.isfile(tgt) else None
-            if text is None or res["stdout"].strip():
+            if fval == "-" and text is None and res["stdout"].strip():
+                text = res["stdout"]           # ('-' read as standard output: a convention, not a fault)
+            elif text is None or res["stdout"].strip():
                 ctx.judge("outcome.exit0_equals_api", False, log_case, "JSON saved to the requested new file, stdout empty",
                           {"file_exists": text is not None, "stdout": res["stdout"][:200]}, cls="ok|file-missing", mech="C20.exit0_file_not_written")
                 return
@@ -487,7 +511,7 @@ def install_probes():
 
 # ------------------------------------------------------------------ generators
 FILE_KINDS = ["none", "none", "none", "none", "new", "new", "new-in-subdir", "new-absolute", "new-on-other-filesystem", "new-on-other-filesystem-absolute",
-              "existing", "existing-absolute", "directory",
+              "existing", "existing-absolute", "directory", "odd-name-dash", "odd-name-tilde", "odd-name-space", "tilde-existing",
               "symlink-to-file", "dangling-symlink", "missing-parent", "file-as-parent", "empty", "dot",
               "symlink-in-subdir-relative", "symlink-in-subdir-via-absolute-path", "symlink-chain", "symlink-to-parent-file"]
 ACCOUNTS = [("valid", "0"), ("valid", "1"), ("valid", "7"), ("valid", "44"), ("valid", "49"), ("valid", "84"), ("valid", "83696968"), ("valid", "1000000"),
@@ -683,7 +707,7 @@ def gen_case(rnd, j):
         if not clean or fault == "valid":
             break
     case = {"cmd": cmd, "cmd_args": args, "source": src, "fault": fault, "testnet": rnd.random() < 0.4, "paranoia": rnd.random() < 0.4,
-            "file": {"kind": rnd.choice(["none", "none", "new", "new-in-subdir", "new-absolute", "dangling-symlink", "new-on-other-filesystem", "new-on-other-filesystem-absolute"] if clean else FILE_KINDS),
+            "file": {"kind": rnd.choice(["none", "none", "new", "new-in-subdir", "new-absolute", "dangling-symlink", "new-on-other-filesystem", "new-on-other-filesystem-absolute", "odd-name-dash", "odd-name-space"] if clean else FILE_KINDS),
                      "flag": rnd.choice(["-f", "--file"])}}
     if rnd.random() < 0.6:
         atag, a = rnd.choice([x for x in ACCOUNTS if x[0] in ("valid", "lenient")] if clean else ACCOUNTS)
